@@ -62,7 +62,9 @@ func (f *WithOpenStream) Call(s *slip.Scope, args slip.List, depth int) (result 
 		s2.Let(sym, stream)
 		args = args[1:]
 		for i := range args {
-			result = slip.EvalArg(s2, args, i, d2)
+			if result = slip.EvalArg(s2, args, i, d2); slip.IsExit(result) {
+				break
+			}
 		}
 	} else {
 		slip.TypePanic(s, depth, "stream", subArgs[1], "stream")
